@@ -66,7 +66,8 @@ func NewViaModifierWithBoundary(requestedBy, boundary string) *ViaModifier {
 //
 // http://tools.ietf.org/html/draft-ietf-httpbis-p1-messaging-14#section-9.9
 func (m *ViaModifier) ModifyRequest(req *http.Request) error {
-	via := req.Header.Get("Via")
+	// The chain may be spread over several field lines.
+	via := strings.Join(req.Header.Values("Via"), ", ")
 
 	var sb strings.Builder
 	sb.Grow(m.nextLen(via))
